@@ -822,7 +822,7 @@ class _Alias:
     """Classifies expressions of one method: FRESH | STORED | FRAME | PROP | ("param", name) | ("unknown",)."""
 
     # helpers of the class / the module whose RESULT is classified by reading their own returns (set by _identity)
-    helpers: dict[str, ast.FunctionDef] = {}
+    helpers: dict[str, tuple] = {}      # key -> (FunctionDef, number of leading parameters the call does not pass)
     _active: list[str] = []
 
     def __init__(self, fn: ast.FunctionDef):
@@ -934,15 +934,18 @@ class _Alias:
         """`self._h(..)` / `_h(..)` with `_h` a private helper of the class / module: the join of what its `return`s
         are, a returned parameter standing for the argument it receives.  None = not such a helper."""
         f = call.func
-        if isinstance(f, ast.Attribute) and isinstance(f.value, ast.Name) and f.value.id == "self":
-            key, skip = "self." + f.attr, 1
+        if isinstance(f, ast.Attribute) and isinstance(f.value, ast.Name) and f.value.id in ("self", "cls", "Charge"):
+            key = "self." + f.attr
         elif isinstance(f, ast.Name):
-            key, skip = f.id, 0
+            key = f.id
         else:
             return None
-        h = _Alias.helpers.get(key)
-        if h is None or key in _Alias._active or len(_Alias._active) > 4:
+        got = _Alias.helpers.get(key)
+        if got is None or key in _Alias._active or len(_Alias._active) > 4:
             return None
+        h, skip = got
+        if skip and isinstance(f, ast.Attribute) and f.value.id != "self" and not h.decorator_list:
+            return None                        # an instance method called through the class: not followed
         a = h.args
         if a.vararg or a.kwarg or any(isinstance(x, ast.Starred) for x in call.args) or any(
                 k.arg is None for k in call.keywords):
@@ -1067,16 +1070,22 @@ def _identity(tree) -> dict:
     for n in raw:
         by_name.setdefault(n.name, []).append(n)
     for name, fns in by_name.items():
-        if (len(fns) == 1 and name.startswith("_") and not name.startswith("__") and not fns[0].decorator_list
-                and fns[0].args.args and fns[0].args.args[0].arg == "self"):
-            _Alias.helpers["self." + name] = fns[0]
+        if len(fns) != 1 or not name.startswith("_") or name.startswith("__"):
+            continue
+        decs = [ast.unparse(d) for d in fns[0].decorator_list]
+        if decs == [] and fns[0].args.args and fns[0].args.args[0].arg == "self":
+            _Alias.helpers["self." + name] = (fns[0], 1)
+        elif decs == ["staticmethod"]:
+            _Alias.helpers["self." + name] = (fns[0], 0)
+        elif decs == ["classmethod"]:
+            _Alias.helpers["self." + name] = (fns[0], 1)
     mod_fns: dict[str, list] = {}
     for n in tree.body:
         if isinstance(n, ast.FunctionDef):
             mod_fns.setdefault(n.name, []).append(n)
     for name, fns in mod_fns.items():
         if len(fns) == 1 and not fns[0].decorator_list:
-            _Alias.helpers[name] = fns[0]
+            _Alias.helpers[name] = (fns[0], 0)
     methods = [inline_method_calls(cands[0], n) for n in raw]
     followed = sorted({h for fn in methods for h in getattr(fn, "c14_inlined", [])})
     res = dict(add=None, writes_arg=False, df_adopts=False, binds_param=False, _inlined_methods=followed)
